@@ -38,6 +38,68 @@ def pool():
              outputs={"va": "a/o1/v"}, inputs=["b/o1/i_ext"], update={"a/o1/g": 1.5}, node_values={"b/o1/g": 0.5})
     return [A, B]
 
+def hier_pool():
+    """hierarchical circuits of depth 1 and 2 over one leaf circuit (nodes a, b with operator o1)"""
+    def leaf(tag):
+        return dict(name="leaf" + tag,
+                    ops={"o1": dict(equations=["v' = -v + s_in + g*i_ext"],
+                                    variables={"v": "output(0.5)", "s_in": "input(0.0)", "i_ext": "input(0.0)", "g": 1.0})},
+                    nodes={"a": dict(ops=["o1"], values={}), "b": dict(ops=["o1"], values={})},
+                    edges=[["a/o1/v", "b/o1/s_in", {"weight": 0.5}]])
+    def mid(tag, t1, t2):
+        return dict(name="mid" + tag, circuits={"c1": leaf(t1), "c2": leaf(t2)}, edges=[["c1/b/o1/v", "c2/a/o1/s_in", {"weight": 0.5}]])
+    H1 = dict(name="H1", depth=1, circuits={"c1": leaf("1"), "c2": leaf("2")},
+              edges=[["c1/b/o1/v", "c2/a/o1/s_in", {"weight": 0.5}], ["c2/b/o1/v", "c1/a/o1/s_in", {"weight": 0.25}]],
+              outputs={"v": "c1/a/o1/v"}, inputs=["c1/a/o1/i_ext"], update={"c2/a/o1/g": 2.0}, node_values={"c1/b/o1/g": 2.0})
+    H2 = dict(name="H2", depth=2, circuits={"m1": mid("1", "1", "2"), "m2": mid("2", "3", "4")},
+              edges=[["m1/c2/b/o1/v", "m2/c1/a/o1/s_in", {"weight": 0.5}]],
+              outputs={"v": "m1/c1/a/o1/v"}, inputs=["m1/c1/a/o1/i_ext"], update={"m2/c1/a/o1/g": 2.0},
+              node_values={"m1/c2/b/o1/g": 2.0})
+    return [H1, H2]
+
+def hnet_of(m, prefix=()):
+    """[(full key of the node, [(op, [vars])])] of a hierarchical model"""
+    if m.get("circuits"):
+        out = []
+        for k, sub in m["circuits"].items():
+            out += hnet_of(sub, prefix + (k,))
+        return out
+    return [[list(prefix) + [n], [[o, list(m["ops"][o]["variables"])] for o in d["ops"]]] for n, d in m["nodes"].items()]
+
+def hier_mutants(m, rng, tier):
+    """every component (circuit levels, node, operator, variable) of every top-level edge endpoint, output, input,
+    update_var and node_values target misspelt; plus the unmutated model per kind"""
+    out = []
+    def mk(hkind, detail, mm, use, path):
+        out.append(dict(t="mutant", kind="hier", hkind=hkind, detail=detail, base=m["name"], depth=m["depth"], model=mm, use=list(use), path=path))
+    n = m["depth"] + 3
+    mk("HOutput", "valid", copy.deepcopy(m), (), list(m["outputs"].values())[0])
+    mk("HInput", "valid", copy.deepcopy(m), ("inputs",), m["inputs"][0])
+    mk("HUpdate", "valid", copy.deepcopy(m), ("update",), list(m["update"])[0])
+    mk("HNodeValue", "valid", copy.deepcopy(m), ("node_values",), list(m["node_values"])[0])
+    for i in range(n):
+        for ei, (s_, t_, e) in enumerate(m["edges"]):
+            for which, p in ((0, s_), (1, t_)):
+                mm = copy.deepcopy(m); mm["edges"][ei][which] = misspell(p, i)
+                mk("HEdge", f"{ei}:{which}:{i}", mm, (), mm["edges"][ei][which])
+        for k, p in m["outputs"].items():
+            mm = copy.deepcopy(m); mm["outputs"][k] = misspell(p, i)
+            mk("HOutput", f"{k}:{i}", mm, (), mm["outputs"][k])
+        p = m["inputs"][0]
+        mm = copy.deepcopy(m); mm["inputs"] = [misspell(p, i)]
+        mk("HInput", f"{i}", mm, ("inputs",), mm["inputs"][0])
+        p, val = list(m["update"].items())[0]
+        mm = copy.deepcopy(m); mm["update"] = {misspell(p, i): val}
+        mk("HUpdate", f"{i}", mm, ("update",), misspell(p, i))
+        p, val = list(m["node_values"].items())[0]
+        mm = copy.deepcopy(m); mm["node_values"] = {misspell(p, i): val}
+        mk("HNodeValue", f"{i}", mm, ("node_values",), misspell(p, i))
+    res = []
+    for mu in out:
+        for vec in ([False, True] if tier == "thorough" else [rng.random() < 0.5]):
+            res.append(dict(mu, vec=vec))
+    return res
+
 def matrix_model(dl):
     """the probe model of the configuration matrix, one per delay kind.  mix_ds / mix_sd: one plain `delay` edge and one
     `delay`+`spread` edge from two different source variables; the node declaration order decides which of the two is
@@ -79,9 +141,16 @@ def vtype_of(spec):
     return "VPlain"
 
 # ---------------------------------------------------------------------------------------------- impl side (worker)
-def _build(m):
+def _build(m, ops=None):
     from pyrates import CircuitTemplate, NodeTemplate, OperatorTemplate
-    ops = {k: OperatorTemplate(name=k, equations=list(v["equations"]), variables=dict(v["variables"])) for k, v in m["ops"].items()}
+    if m.get("circuits"):                                  # hierarchical: one shared operator template per name (D26)
+        ops = ops if ops is not None else {}
+        subs = {k: _build(sub, ops) for k, sub in m["circuits"].items()}
+        return CircuitTemplate(name=m["name"], circuits=subs, edges=[(s, t, None, dict(e)) for s, t, e in m["edges"]])
+    ops = ops if ops is not None else {}
+    for k, v in m["ops"].items():
+        if k not in ops:
+            ops[k] = OperatorTemplate(name=k, equations=list(v["equations"]), variables=dict(v["variables"]))
     nodes = {}
     for n, d in m["nodes"].items():
         od = {}
@@ -106,18 +175,57 @@ def _has_numbers(x):
     except Exception:
         return True
 
+_SOLVE_NAMES = {"_solve_euler": "MEuler", "_solve_heun": "MHeun", "_solve_scipy": "MScipy", "_solve_scipy_dde": "MScipy",
+                "_solve_diffrax": "MDiffrax"}
+def _record_solve(backend, rec):
+    """wrap every `_solve_*` integration routine of the backend class (and of BaseBackend) with a recorder; returns the
+    list of (class, name, original attribute) to restore.  Nothing in /repo is changed."""
+    import importlib
+    import pyrates.backend.base.base_backend as bb
+    classes = [bb.BaseBackend]
+    mod = {"torch": ("pyrates.backend.torch.torch_backend", "TorchBackend"), "jax": ("pyrates.backend.jax.jax_backend", "JaxBackend"),
+           "fortran": ("pyrates.backend.fortran.fortran_backend", "FortranBackend")}.get(backend)
+    if mod:
+        classes.append(getattr(importlib.import_module(mod[0]), mod[1]))
+    saved = []
+    for cls in classes:
+        for name, attr in list(cls.__dict__.items()):
+            if name in _SOLVE_NAMES:
+                static = isinstance(attr, staticmethod)
+                f = attr.__func__ if static else attr
+                def mk(f, name):
+                    def w(*a, **k):
+                        rec.append(_SOLVE_NAMES[name])
+                        return f(*a, **k)
+                    return w
+                setattr(cls, name, staticmethod(mk(f, name)) if static else mk(f, name))
+                saved.append((cls, name, attr))
+    return saved
+
 def _impl_config(case):
+    res = _impl_config0(case)
+    return res
+
+_FCOUNT = [0]
+def _impl_config0(case):
     import warnings
     import numpy as np
     m = matrix_model(case["dl"])
+    rec, saved = [], []
     kw = dict(backend=case["be"], vectorize=case["vec"], verbose=False, float_precision="float64")
     if not case["inplace"]:
         kw["inplace_vectorfield"] = False
+    if case["be"] == "fortran":
+        # a compiled extension module cannot be re-imported under the same name in one process (D29: the first model's
+        # routine would be returned): every Fortran case gets its own module name
+        _FCOUNT[0] += 1
+        kw["file_name"] = f"fm{os.getpid()}_{_FCOUNT[0]}"
     with warnings.catch_warnings(record=True):
         warnings.simplefilter("always")
         try:
             c = _build(m)
             if case["en"] == "run":
+                saved = _record_solve(case["be"], rec)
                 r = c.run(simulation_time=1.0, step_size=0.125, solver=case["so"], outputs=dict(m["outputs"]), clear=True, **kw)
                 out = np.asarray(r.values)
             elif case["en"] == "func":
@@ -126,9 +234,12 @@ def _impl_config(case):
             else:
                 f, args, _, _ = c.get_jacobian_func("j", 0.125, solver=case["so"], sparse=case["sparse"], clear=False, **kw)
                 out = f(*args)
-            return dict(r="ok", numbers=_has_numbers(out))
+            return dict(r="ok", numbers=_has_numbers(out), method=rec[0] if rec else None)
         except Exception as e:
-            return _classify(e)
+            return dict(_classify(e), method=rec[0] if rec else None)
+        finally:
+            for cls, name, attr in saved:
+                setattr(cls, name, attr)
 
 def _impl_mutant(case):
     import warnings
@@ -407,6 +518,15 @@ Open Scope string_scope.
 Open Scope list_scope.
 Definition okI (c : probe * result) := result_eqb (impl (fst c)) (snd c).
 Definition okS (c : probe * result) := meets_spec (fst c) (snd c).
+Definition method_eqb (a b : method) : bool :=
+  match a, b with MEuler, MEuler | MHeun, MHeun | MScipy, MScipy | MDiffrax, MDiffrax => true | _, _ => false end.
+Definition okD (c : config * method) :=
+  method_eqb (solve_dispatch (be (fst c)) (so (fst c))) (snd c) &&
+  match accepts (fst c), named_method (so (fst c)) with
+  | Ok, Some m => method_eqb m (snd c)
+  | Ok, None => false
+  | _, _ => false      (* a refused configuration must not reach an integration routine *)
+  end.
 """
 
 def cpath(p):
@@ -437,6 +557,9 @@ def probe_term(case, res):
     if t == "opgraph":
         return "POpGraph " + clist([f"(mko {cstr(o['name'])} {cpath(o['inputs'])} {cstr(o['output'])})" for o in case["ops"]])
     m, kind = case["model"], case["kind"]
+    if kind == "hier":
+        hnet = clist([f"({cpath(k)}, {clist([f'({cstr(o)}, {cpath(vs)})' for o, vs in ops])})" for k, ops in hnet_of(m)])
+        return f"PHier {case['hkind']} {cnat(case['depth'])} {hnet} {cpath(case['path'].split('/'))}"
     net = cnet(net_of(m))
     if kind == "valid":
         outs = clist([cpath(p.split("/")) for p in m["outputs"].values()])
@@ -471,6 +594,7 @@ def model_compare(ctx, cases, outs, tag):
     one list per guard (guard false), notwf (representation invariant false: harness error)"""
     keys = ["badI", "badS", "malformed", "notwf"] + GUARDS
     acc = {k: [] for k in keys}
+    acc["badD"] = []; acc["dispatched"] = 0
     shard = 300
     for s in range(0, len(cases), shard):
         terms = [f"({probe_term(c, o)}, {observed(o)})" for c, o in zip(cases[s:s + shard], outs[s:s + shard])]
@@ -484,6 +608,19 @@ def model_compare(ctx, cases, outs, tag):
         assert len(ls) == len(keys), out[:400]
         for k, l in zip(keys, ls):
             acc[k] += [s + i for i in l]
+    # solver dispatch observed on the real code (recorders around the backend's _solve_* routines): whenever `_solve`
+    # got past the validation, the routine entered first must be the one Guards.solve_dispatch names, and for an
+    # accepted configuration that is the routine named by the solver
+    disp = [(i, c, o["method"]) for i, (c, o) in enumerate(zip(cases, outs))
+            if c["t"] == "config" and c["dl"] not in MIXED and o.get("method")]
+    if disp:
+        terms = [f"({probe_term(c, None)[len('PConfig '):]}, {m})" for _, c, m in disp]
+        body = ("Definition dcases : list (config * method) := " + clist(terms) + ".\n"
+                "Eval vm_compute in (mismatches okD dcases).\n")
+        ls = parse_nat_lists(coq_eval(ctx, f"c20_{tag}_disp", HEADER, body))
+        assert len(ls) == 1
+        acc["badD"] = [disp[j][0] for j in ls[0]]
+        acc["dispatched"] = len(disp)
     return acc
 
 def model_outputs(ctx, case, res, tag):
@@ -541,6 +678,11 @@ def run_cases(ctx, cases):
             outs[i] = r
     return outs
 
+def fixed_F3():
+    """the one-line model switch of coq/theories/Guards.v"""
+    txt = open(os.path.join(COQ, "theories", "Guards.v")).read()
+    return re.search(r"Definition fixed_F3 : bool := (true|false)\.", txt).group(1) == "true"
+
 def summarize(case):
     c = {k: v for k, v in case.items() if k != "model"}
     return c
@@ -561,6 +703,8 @@ def check(ctx):
         muts = valid_cases()
         for m in pool():
             muts += mutants(m, ctx.rng, ctx.tier)
+        for m in hier_pool():
+            muts += hier_mutants(m, ctx.rng, ctx.tier)
         cases = (load_corpus("C20") + inproc + fortran + muts + vname_cases(ctx.rng, 150 if quick else 1500)
                  + verify_path_cases(ctx.rng, 12 if quick else 80) + node_apply_cases(ctx.rng, 4 if quick else 20)
                  + opgraph_cases(ctx.rng, 60 if quick else 600))
@@ -580,6 +724,10 @@ def check(ctx):
     ctx.note(f"real-code runs {t_run:.0f}s, evaluation of the model in Coq {t_coq:.0f}s")
     back = lambda l: [good[i] for i in l]
     badI, badS, malformed, notwf = back(cmp_["badI"]), back(cmp_["badS"]), back(cmp_["malformed"]), back(cmp_["notwf"])
+    badD = back(cmp_["badD"])
+    badI = sorted(set(badI) | set(badD))      # a wrong dispatch is a disagreement with the mechanism model
+    ctx.note(f"solver dispatch observed on {cmp_['dispatched']} runs that reached an integration routine; "
+             f"disagreements with Guards.solve_dispatch / named_method: {len(badD)}; model switch fixed_F3={fixed_F3()}")
     assert not notwf, f"generator produced a network with duplicate keys: {[summarize(cases[i]) for i in notwf[:3]]}"
     # 'ok' must mean that numbers came back; a quiet return without numbers would be a harness blind spot
     hollow = [i for i in good if outs[i]["r"] in ("ok", "warn") and outs[i].get("numbers") is False]
@@ -590,7 +738,7 @@ def check(ctx):
             guard_viol.setdefault(i, []).append(g)
     by_t = {}
     for c in cases:
-        k = c["t"] if c["t"] != "mutant" else "mutant:" + c["kind"]
+        k = c["t"] if c["t"] != "mutant" else "mutant:" + c["kind"] + (str(c["depth"]) if c["kind"] == "hier" else "")
         by_t[k] = by_t.get(k, 0) + 1
     ctx.note(f"E1: {len(cases)} probes {by_t}; code-vs-Impl mismatches {len(badI)}, property violations {len(badS)} "
              f"(of which outside the guards {sum(1 for i in badS if guard_viol.get(i))}), harness/worker errors {len(crashed)}")
@@ -627,6 +775,7 @@ def check(ctx):
                                           fortran_reaching_f2py=sum(1 for c in cases if c["t"] == "config" and c["be"] == "fortran" and not c["vec"]),
                                           note="`sparse` is a parameter of get_jacobian_func only: rows with sparse=true are run for that entry point"),
                               impl_vs_model_mismatches=len(badI), impl_vs_spec_mismatches=len(badS),
+                              solver_dispatch_observed=cmp_["dispatched"], solver_dispatch_mismatches=len(badD), model_switch_fixed_F3=fixed_F3(),
                               mixed_delay_rows=sum(1 for c in cases if c["t"] == "config" and c["dl"] in MIXED),
                               outside_guards={g: len(cmp_[g]) for g in GUARDS}),
                    trusted_base=["exception classes are compared through a three-valued enum (PyRatesException / NotImplementedError / any other)",
